@@ -214,4 +214,109 @@ P_C04_Table(vft, it, l, ptr) ==
           /\ l.offs[i] = (i - 1) * ptr
      /\ l.size = Len(ex) * ptr
 
+(* --------------------- C06 / C07: inheritance oracles ------------------ *)
+(* a declared virtual function, as the compatibility rule of C06 sees it   *)
+SlotSig(inp, m, f) ==
+  [name |-> f.name,
+   recv |-> IF \E i \in DOMAIN f.args : f.args[i].k = "cself" THEN "const"
+            ELSE IF \E i \in DOMAIN f.args : f.args[i].k = "mself" THEN "mut" ELSE "none",
+   ptypes |-> [i \in DOMAIN SelectSeq(f.args, LAMBDA a : a.k = "named") |->
+                 DTy(inp, m, SelectSeq(f.args, LAMBDA a : a.k = "named")[i].ty)],
+   ret |-> DTy(inp, m, f.ret), cc |-> DeclCC(f), vis |-> f.vis, pad |-> FALSE]
+
+PadSig == [name |-> "", recv |-> "mut", ptypes |-> <<>>, ret |-> TNone, cc |-> "thiscall", vis |-> "priv", pad |-> TRUE]
+
+OwnTableSigs(inp, m, vft) ==
+  LET sl == DeclSlots(vft)
+  IN [i \in 1..TableLen(vft) |->
+        IF \E k \in DOMAIN sl : sl[k] = i - 1
+        THEN SlotSig(inp, m, vft.funcs[CHOOSE j \in DOMAIN sl : sl[j] = i - 1])
+        ELSE PadSig]
+
+FirstBaseType(inp, m, d) ==
+  LET bi == FirstIdx(d.fields, LAMBDA f : f.base)
+  IN IF bi = 0 THEN TNone ELSE DTy(inp, m, d.fields[bi].ty)
+
+(* the table a type effectively has: its own block, else its first base's *)
+RECURSIVE EffTable(_, _, _)
+EffTable(inp, p, fuel) ==
+  LET x == DefAt(inp, p)
+  IN IF fuel = 0 \/ x = <<0, 0>> THEN <<>>
+     ELSE LET m == inp.mods[x[1]]
+              d == m.defs[x[2]]
+              bt == IF d.k = "type" THEN FirstBaseType(inp, m, d) ELSE TNone
+          IN IF d.k # "type" THEN <<>>
+             ELSE IF d.vft.has THEN OwnTableSigs(inp, m, d.vft)
+             ELSE IF bt # TNone /\ bt.k = "raw" THEN EffTable(inp, bt.p, fuel - 1)
+             ELSE <<>>
+
+SameSlot(a, b) ==
+  /\ a.pad = b.pad
+  /\ a.pad \/ (a.name = b.name /\ a.recv = b.recv /\ a.ptypes = b.ptypes /\ a.ret = b.ret /\ a.cc = b.cc)
+
+(* C06: the derived block repeats every base slot in the same position     *)
+VftCompatible(inp, m, d) ==
+  LET bt == FirstBaseType(inp, m, d)
+      base == IF bt # TNone /\ bt.k = "raw" THEN EffTable(inp, bt.p, 8) ELSE <<>>
+      own == OwnTableSigs(inp, m, d.vft)
+  IN (d.vft.has /\ base # <<>>) =>
+        /\ Len(own) >= Len(base)
+        /\ \A i \in DOMAIN base : SameSlot(base[i], own[i])
+
+(* C07: the functions a type exposes (name, forwarded-to field, original   *)
+(* name, visibility); own impl functions have field = ""                   *)
+RECURSIVE EffFuncs(_, _, _)
+RECURSIVE ExposeFrom(_, _, _, _)
+ExposeFrom(acc, bname, fs, k) ==    \* acc = [used, out]; fs = seq of [name, vis]
+  IF k > Len(fs) THEN acc
+  ELSE IF fs[k].vis # "pub" THEN ExposeFrom(acc, bname, fs, k + 1)
+  ELSE LET nm == IF fs[k].name \in acc.used THEN bname \o "_" \o fs[k].name ELSE fs[k].name
+       IN ExposeFrom([used |-> acc.used \cup {nm},
+                      out |-> Append(acc.out, [name |-> nm, field |-> bname, orig |-> fs[k].name, vis |-> "pub"])],
+                     bname, fs, k + 1)
+
+RECURSIVE ExposeBases(_, _, _, _, _, _)
+ExposeBases(inp, m, bases, i, acc, fuel) ==
+  IF bases = <<>> THEN acc
+  ELSE LET b == Head(bases)
+           bt == DTy(inp, m, b.ty)
+           ok == bt # TNone /\ bt.k = "raw" /\ DefAt(inp, bt.p) # <<0, 0>>
+           a1 == IF ok THEN ExposeFrom(acc, b.name, EffFuncs(inp, bt.p, fuel - 1), 1) ELSE acc
+           tab == IF ok THEN EffTable(inp, bt.p, 8) ELSE <<>>
+           a2 == IF i > 0 THEN ExposeFrom(a1, b.name, [j \in DOMAIN tab |-> [name |-> tab[j].name, vis |-> tab[j].vis]], 1)
+                 ELSE a1
+       IN ExposeBases(inp, m, Tail(bases), i + 1, a2, fuel)
+
+EffFuncs(inp, p, fuel) ==
+  LET x == DefAt(inp, p)
+  IN IF fuel = 0 \/ x = <<0, 0>> THEN <<>>
+     ELSE LET m == inp.mods[x[1]]
+              d == m.defs[x[2]]
+              tab == EffTable(inp, p, 8)
+              used0 == {tab[j].name : j \in {k \in DOMAIN tab : ~tab[k].pad}}
+              inj == IF d.k # "type" THEN [used |-> {}, out |-> <<>>]
+                     ELSE ExposeBases(inp, m, SelectSeq(d.fields, LAMBDA f : f.base /\ f.name # "_"), 0,
+                                      [used |-> used0, out |-> <<>>], fuel)
+              own == ImplFuncs(m, d.name)
+          IN inj.out \o [j \in DOMAIN own |-> [name |-> own[j].name, field |-> "", orig |-> own[j].name, vis |-> own[j].vis]]
+
+(* every base sub-object, depth first: [path of field names, type path]   *)
+RECURSIVE BaseObjects(_, _, _, _)
+BaseObjects(inp, p, prefix, fuel) ==
+  LET x == DefAt(inp, p)
+  IN IF fuel = 0 \/ x = <<0, 0>> THEN <<>>
+     ELSE LET m == inp.mods[x[1]]
+              d == m.defs[x[2]]
+              bases == IF d.k = "type" THEN SelectSeq(d.fields, LAMBDA f : f.base /\ f.name # "_") ELSE <<>>
+              one(b) == LET bt == DTy(inp, m, b.ty)
+                        IN IF bt = TNone \/ bt.k # "raw" THEN <<>>
+                           ELSE <<[path |-> Append(prefix, b.name), ty |-> bt.p]>>
+                                \o BaseObjects(inp, bt.p, Append(prefix, b.name), fuel - 1)
+          IN Flatten([i \in DOMAIN bases |-> one(bases[i])])
+
+(* the conversions C07 prescribes: one per base type that occurs once     *)
+ExpectedAsRefs(inp, p) ==
+  LET h == BaseObjects(inp, p, <<>>, 8)
+  IN {[ty |-> h[i].ty, path |-> h[i].path] : i \in {j \in DOMAIN h : \A k \in DOMAIN h : k # j => h[k].ty # h[j].ty}}
+
 =============================================================================
